@@ -6,8 +6,8 @@
 (* per-operation bookkeeping (planned instances from the allocation calls,     *)
 (* containers created / logged before a crash) that the predicates need.       *)
 EXTENDS ClusterState, TraceBase
-VARIABLES l, hdr, pre, prior, planned, injected, crashed, msgs, retv, created, logged, nalloc, natural
-tvars == <<l, hdr, pre, prior, planned, injected, crashed, msgs, retv, created, logged, nalloc, natural>>
+VARIABLES l, hdr, pre, prior, planned, injected, crashed, msgs, retv, created, logged, nalloc, natural, lamb
+tvars == <<l, hdr, pre, prior, planned, injected, crashed, msgs, retv, created, logged, nalloc, natural, lamb>>
 
 OpKind == hdr.scenario.op.kind
 Where == OpKind \o "/" \o (IF crashed # "none" THEN "crash@" \o crashed ELSE IF injected # "none" THEN "fault@" \o injected ELSE "fault-free")
@@ -61,6 +61,17 @@ PartUntouched(s, id) ==
 FailedPartsUntouched(s, rt) ==
     rt.kind \in {"remove", "dissociate", "replace", "realloc"} => \A i \in ErrMsgs : msgs[i].id # "" => PartUntouched(s, msgs[i].id)
 
+\* C30: run-and-wait workloads are cleaned up, the exit code (or the error that prevented it) is the last message of
+\* its workload, the recovery-log entries are committed
+LambdaIds(rt) == {rt.ids[i] : i \in 1..Len(rt.ids)} \ {""}
+LastOf(id) == LET I == {i \in 1..Len(msgs) : msgs[i].id = id} IN msgs[CHOOSE i \in I : \A j \in I : j <= i]
+WantCode == IF hdr.scenario.op.delta = "exit3" THEN 3 ELSE 0
+LambdaLastOK(rt) == \A id \in LambdaIds(rt) :
+    /\ \E i \in 1..Len(msgs) : msgs[i].id = id
+    /\ LET m == LastOf(id) IN
+         IF hdr.scenario.op.delta \in {"ok", "exit3"} THEN m.exit /\ m.code = WantCode ELSE (m.exit \/ m.stream = "error")
+LambdaCleaned(s) == NewWls(s) = {} /\ NewContainers(s) = {}
+
 \* C13 after the deployment returned: no marker of the application, counts = recorded
 NoMarkers(s) == \A i \in 1..Len(s.proc) : s.proc[i].app # hdr.scenario.op.app
 
@@ -74,7 +85,7 @@ WhyRecovered(s) == IF ~(\A id \in WlIds(pre) : PartUntouched(s, id)) THEN "pre-e
                    ELSE "unrecorded-container-left"
 
 TraceInit == /\ l = 1 /\ hdr = <<>> /\ pre = <<>> /\ prior = <<>> /\ planned = <<>> /\ injected = "none" /\ crashed = "none"
-             /\ msgs = <<>> /\ retv = <<>> /\ created = 0 /\ logged = 0 /\ nalloc = <<>> /\ natural = "none"
+             /\ msgs = <<>> /\ retv = <<>> /\ created = 0 /\ logged = 0 /\ nalloc = <<>> /\ natural = "none" /\ lamb = 0
 StateChecks(s, when) ==
     /\ Report(UsageIsSum(s), "C10", l, "usage-differs-from-workload-sum/" \o when \o "/" \o Where)
     /\ Report(NoOvercommit(s), "C10", l, "usage-above-capacity/" \o when \o "/" \o Where)
@@ -88,16 +99,17 @@ TraceNext ==
     /\ LET e == Trace[l] IN
        CASE e.ev = "Run" ->
               /\ hdr' = e /\ pre' = <<>> /\ prior' = <<>> /\ planned' = <<>> /\ injected' = "none" /\ crashed' = "none"
-              /\ msgs' = <<>> /\ retv' = <<>> /\ created' = 0 /\ logged' = 0 /\ nalloc' = <<>> /\ natural' = "none"
+              /\ msgs' = <<>> /\ retv' = <<>> /\ created' = 0 /\ logged' = 0 /\ nalloc' = <<>> /\ natural' = "none" /\ lamb' = 0
          [] e.ev = "Snap" /\ e.when = "pre" ->
               /\ pre' = e /\ StateChecks(e, "pre-state")
-              /\ UNCHANGED <<hdr, prior, planned, injected, crashed, msgs, retv, created, logged, nalloc, natural>>
-         [] e.ev = "Prior" -> prior' = e.rows /\ UNCHANGED <<hdr, pre, planned, injected, crashed, msgs, retv, created, logged, nalloc, natural>>
+              /\ UNCHANGED <<hdr, prior, planned, injected, crashed, msgs, retv, created, logged, nalloc, natural, lamb>>
+         [] e.ev = "Prior" -> prior' = e.rows /\ UNCHANGED <<hdr, pre, planned, injected, crashed, msgs, retv, created, logged, nalloc, natural, lamb>>
          [] e.ev = "Ext" ->
               /\ injected' = (IF e.class = "injected" THEN e.target \o "." \o e.method ELSE injected)
               /\ planned' = (IF e.target = "rmgr" /\ e.method = "Alloc" /\ e.class = "ok"
                              THEN [k \in DOMAIN planned \cup {e.node} |-> IF k = e.node THEN Get(planned, e.node, 0) + e.n ELSE planned[k]] ELSE planned)
               /\ nalloc' = (IF e.target = "rmgr" /\ e.method = "Alloc" /\ e.class = "ok" THEN Append(nalloc, e.n) ELSE nalloc)
+              /\ lamb' = (IF e.target = "wal" /\ e.type = "create-lambda" /\ e.class = "ok" THEN lamb + (IF e.method = "Log" THEN 1 ELSE -1) ELSE lamb)
               /\ logged' = (IF e.target = "wal" /\ e.method = "Log" /\ e.type = "create-workload" /\ e.class = "ok" THEN logged + 1 ELSE logged)
               /\ (IF Has(e, "obs") /\ ~e.obserr THEN Report(ObsOK(e, planned'), "C13", l, "count-out-of-bounds-during-deployment/" \o e.target \o "." \o e.method \o "/" \o Where) ELSE TRUE)
               /\ (IF e.target = "lock" /\ e.class # "injected" /\ Has(e, "cls") THEN Report(LockOrderOK(e), "C20", l, "lock-out-of-order/" \o OpKind) ELSE TRUE)
@@ -105,10 +117,10 @@ TraceNext ==
               /\ natural' = (IF e.class = "err" /\ injected = "none" /\ e.target \in {"store", "rmgr", "engine", "wal"} /\ natural = "none"
                               THEN e.target \o "." \o e.method ELSE natural)
               /\ UNCHANGED <<hdr, pre, prior, crashed, msgs, retv, created>>
-         [] e.ev = "EngineCreated" -> created' = created + 1 /\ UNCHANGED <<hdr, pre, prior, planned, injected, crashed, msgs, retv, logged, nalloc, natural>>
-         [] e.ev = "Crash" -> crashed' = e.target \o "." \o e.method /\ UNCHANGED <<hdr, pre, prior, planned, injected, msgs, retv, created, logged, nalloc, natural>>
-         [] e.ev = "Msg" -> msgs' = Append(msgs, e) /\ UNCHANGED <<hdr, pre, prior, planned, injected, crashed, retv, created, logged, nalloc, natural>>
-         [] e.ev = "Return" -> retv' = e /\ UNCHANGED <<hdr, pre, prior, planned, injected, crashed, msgs, created, logged, nalloc, natural>>
+         [] e.ev = "EngineCreated" -> created' = created + 1 /\ UNCHANGED <<hdr, pre, prior, planned, injected, crashed, msgs, retv, logged, nalloc, natural, lamb>>
+         [] e.ev = "Crash" -> crashed' = e.target \o "." \o e.method /\ UNCHANGED <<hdr, pre, prior, planned, injected, msgs, retv, created, logged, nalloc, natural, lamb>>
+         [] e.ev = "Msg" -> msgs' = Append(msgs, e) /\ UNCHANGED <<hdr, pre, prior, planned, injected, crashed, retv, created, logged, nalloc, natural, lamb>>
+         [] e.ev = "Return" -> retv' = e /\ UNCHANGED <<hdr, pre, prior, planned, injected, crashed, msgs, created, logged, nalloc, natural, lamb>>
          [] e.ev = "Snap" /\ e.when = "post" ->
               /\ (IF injected # "none" /\ natural # "none" THEN TRUE ELSE StateChecks(e, "after"))
               /\ (IF crashed # "none"
@@ -121,9 +133,15 @@ TraceNext ==
                        /\ (IF OpKind = "create" /\ injected # "store.DeleteProcessing"   \* the injected failure is the clean-up call itself: nothing to judge
                             THEN Report(NoMarkers(e), "C13", l, "marker-left-after-deployment/" \o Where) ELSE TRUE)
                        /\ (IF OpFailed(retv) THEN Report(CoreDiff(pre, e) = "none", "C11", l, "failed-operation-changed-" \o CoreDiff(pre, e) \o "/" \o Where) ELSE TRUE)
-                       /\ Report(FailedPartsUntouched(e, retv), "C11", l, "failed-part-changed-its-workload/" \o Where))
-              /\ UNCHANGED <<hdr, pre, prior, planned, injected, crashed, msgs, retv, created, logged, nalloc, natural>>
-         [] OTHER -> UNCHANGED <<hdr, pre, prior, planned, injected, crashed, msgs, retv, created, logged, nalloc, natural>>
+                       /\ Report(FailedPartsUntouched(e, retv), "C11", l, "failed-part-changed-its-workload/" \o Where)
+                       /\ (IF OpKind = "lambda" /\ retv.class = "ok"
+                           THEN /\ Report(LambdaCleaned(e), "C30", l, "run-and-wait-workload-left-behind/" \o hdr.scenario.op.delta)
+                                /\ Report(LambdaLastOK(retv), "C30", l, "exit-code-not-last-message/" \o hdr.scenario.op.delta)
+                                /\ Report(lamb = 0, "C30", l, "recovery-log-entry-not-committed/" \o hdr.scenario.op.delta)
+                           ELSE TRUE)
+                       /\ (IF OpKind = "lambda" THEN Report(retv.class # "hang" /\ (retv.class = "ok" => retv.closed), "C30", l, "output-stream-never-closed/" \o hdr.scenario.op.delta) ELSE TRUE))
+              /\ UNCHANGED <<hdr, pre, prior, planned, injected, crashed, msgs, retv, created, logged, nalloc, natural, lamb>>
+         [] OTHER -> UNCHANGED <<hdr, pre, prior, planned, injected, crashed, msgs, retv, created, logged, nalloc, natural, lamb>>
     /\ l' = l + 1
 TraceSpec == TraceInit /\ [][TraceNext]_tvars
 TraceAccepted == IF TLCGet("stats").diameter - 1 = Len(Trace)
